@@ -12,6 +12,7 @@ values, in the partition-key order of the table cqlengine itself would create (`
 text), and the model's keyspace; a statement that does not fix the whole key carries none.
 """
 import datetime
+import decimal
 import random
 import re
 
@@ -265,16 +266,47 @@ def run(ctx):
         M = sp.model
         udt_cls = dict((n, c[3].user_type) for n, c in sp.cols.items() if c[2][0] == 'udt')
 
+        prev = {}
+
+        def twin(k, v):
+            """a value equal to v under Python's == whose Cassandra encoding differs (None when the type has none)"""
+            if k == 'decimal' and isinstance(v, decimal.Decimal) and v.is_finite():
+                sign, digits, exp = v.as_tuple()
+                return decimal.Decimal((sign, tuple(digits) + (0,), exp - 1))
+            if k in ('float', 'double') and v == 0:
+                return -v
+            return None
+
         def fresh_values():
+            """Key values for the next operation.  Now and then the partition key repeats the previous operation's key with
+            components replaced by an equal-but-differently-encoded twin (Decimal('1.0') / Decimal('1.00'), 0.0 / -0.0): a
+            routing key must follow the value's encoding, not its == class."""
             canon, inp = {}, {}
+            reuse = bool(prev) and rng.random() < 0.3
+            twins = 0
             for n, c in sp.cols.items():
                 if c[1] == 'v':
                     v = {'int': 5, 'text': 'x', 'double': 1.5}[c[2][0]]
                     canon[n], inp[n] = v, v
                 elif c[1] == 'c':
                     canon[n], inp[n] = gen_scalar_pair(c[2][0])
+                elif reuse and n in prev:
+                    k = c[2][0]
+                    tv = twin(k, prev[n][0]) if k in ('decimal', 'float', 'double') else None
+                    if tv is not None:
+                        canon[n], inp[n] = tv, G.to_driver(rng, (k,), tv)
+                        twins += 1
+                    else:
+                        canon[n], inp[n] = prev[n]
+                elif c[2][0] in ('float', 'double') and rng.random() < 0.2:
+                    z = rng.choice([0.0, -0.0])
+                    canon[n], inp[n] = z, z
                 else:
                     canon[n], inp[n] = gen_pair(c[2], udt_cls.get(n))
+            if twins:
+                ctx.count("operations_on_an_equal_but_differently_encoded_partition_key")
+            prev.clear()
+            prev.update((n, (canon[n], inp[n])) for n, c in sp.cols.items() if c[1] == 'p')
             return canon, inp
 
         def observe(opname, fn, canon, routed, tolerate=()):
